@@ -123,7 +123,27 @@ def run_rustc_traits(eng, prop, tier, seed):
     return c38.run(eng, prop, tier, seed)
 
 
+def run_scan(eng, prop, tier, seed):
+    """inventory of call sites (an UNCHECKED listing that goes into the evidence assumptions; decides nothing)"""
+    import glob
+    hits = []
+    for path in sorted(glob.glob(os.path.join(REPO, eng['glob']), recursive=True)):
+        try:
+            lines = open(path, encoding='utf-8').read().split('\n')
+        except OSError:
+            continue
+        for i, l in enumerate(lines, 1):
+            if re.search(eng['pattern'], l):
+                ctx = ' '.join(x.strip() for x in lines[max(0, i - 6):i])
+                fed = 'client position via get_offset/to_rowan_range' if re.search(eng.get('covered_by', r'$^'), ctx) else 'other origin (tree / index)'
+                hits.append('%s:%d  %s  [%s]' % (os.path.relpath(path, REPO), i, l.strip()[:90], fed))
+    return {'obligations': 0, 'discharged': 0, 'cmd': 'scan %s for /%s/' % (eng['glob'], eng['pattern']),
+            'summary': {'unit': 'scan/' + eng['name'], 'sites': len(hits)}, 'samples': [], 'failed': [],
+            'assumptions': ['[scan %s] %s' % (eng['name'], h) for h in hits]}
+
+
 def run(eng, prop, tier, seed):
+    if eng['kind'] == 'scan': return run_scan(eng, prop, tier, seed)
     if eng['kind'] == 'kani': return run_kani(eng, prop, tier, seed)
     if eng['kind'] == 'rustc-traits': return run_rustc_traits(eng, prop, tier, seed)
     raise Undecided('unknown engine %s' % eng['kind'])
